@@ -423,6 +423,105 @@ pub fn run(tier: Tier) -> i32 {
     });
     run.add("tracker_histories", tr_cases.load(Ordering::Relaxed));
 
+    // (f) identification payloads: uniform strings of every code, and every pair of positions x boundary codes over
+    //     fillers {space, 0, 63} in all four carriers (a trim / filter that indexes an emptied buffer shows only here)
+    {
+        let carriers: Vec<(u64, u64)> = vec![(17, 4), (18, 1), (20, 0x20), (21, 0x20)];
+        let codes: [u64; 10] = [0, 1, 26, 27, 31, 32, 33, 48, 57, 63];
+        let locs: Vec<Local> = carriers
+            .par_iter()
+            .map(|(df, sel)| {
+                let mut loc = Local::default();
+                let mut b = vec![0u8; 14];
+                set_bits(&mut b, 1, 5, *df);
+                if *df < 20 {
+                    set_bits(&mut b, 6, 3, 5);
+                    set_bits(&mut b, 9, 24, 0xa1b2c3);
+                    set_bits(&mut b, 33, 5, *sel);
+                } else {
+                    set_bits(&mut b, 33, 8, *sel);
+                }
+                for c in 0u64..64 {
+                    for k in 0..8usize {
+                        set_bits(&mut b, 41 + 6 * k, 6, c);
+                    }
+                    all_ops(&b, &mut loc, false);
+                }
+                for fill in [32u64, 0, 63] {
+                    for i in 0..8usize {
+                        for j in (i + 1)..8 {
+                            for x in codes {
+                                for y in codes {
+                                    for k in 0..8usize {
+                                        set_bits(&mut b, 41 + 6 * k, 6, fill);
+                                    }
+                                    set_bits(&mut b, 41 + 6 * i, 6, x);
+                                    set_bits(&mut b, 41 + 6 * j, 6, y);
+                                    all_ops(&b, &mut loc, false);
+                                }
+                            }
+                        }
+                    }
+                }
+                loc
+            })
+            .collect();
+        merge(&run, locs, "extra_cases");
+    }
+
+    // (g) long histories: every periodic word of period <= 2 over a position / identification / velocity alphabet,
+    //     repeated 3000 (quick 1500) times on one tracker (capacity, wrap-around and accumulation defects)
+    {
+        use crate::alpha::{alphabet_c13_deep, alphabet_c14, Ev};
+        let rx = (35.0, -80.0);
+        let mut alpha: Vec<Ev> = alphabet_c13_deep(rx, 2000.0);
+        alpha.extend(alphabet_c14(rx).into_iter().take(6));
+        let n = alpha.len();
+        let len = if tier.thorough() { 3000 } else { 1500 };
+        let mut words: Vec<Vec<usize>> = (0..n).map(|a| vec![a]).collect();
+        for a in 0..n {
+            for b2 in 0..n {
+                if a != b2 {
+                    words.push(vec![a, b2]);
+                }
+            }
+        }
+        let steps = AtomicU64::new(0);
+        words.par_iter().for_each(|w| {
+            let frames: Vec<Vec<u8>> = w
+                .iter()
+                .map(|i| match &alpha[*i] {
+                    Ev::Frame { bytes, .. } => bytes.clone(),
+                    _ => vec![],
+                })
+                .collect();
+            let res = guarded(move || {
+                let mut planes = Airplanes::new();
+                for i in 0..len {
+                    if let Ok(f) = Frame::from_bytes(&frames[i % frames.len()]) {
+                        planes.action(f, rx, 2000.0);
+                    }
+                    if i % 500 == 499 {
+                        let _ = planes.to_string();
+                    }
+                }
+                planes.len()
+            });
+            steps.fetch_add(len as u64, Ordering::Relaxed);
+            if let Err(p) = res {
+                let names: Vec<String> = w.iter().map(|i| alpha[*i].name()).collect();
+                run.violation(Violation {
+                    oracle: "no-panic".into(),
+                    class: "tracker-long-history-panic".into(),
+                    input: format!("periodic word [{}] repeated up to {len} events, rx={rx:?} range=2000", names.join(" ; ")),
+                    expected: "no panic".into(),
+                    observed: format!("panic: {p} @ {}", last_panic_loc()),
+                });
+            }
+        });
+        run.add("long_history_events", steps.load(Ordering::Relaxed));
+    }
+
     run.sample(json!({"bytes": "", "ops": ["from_bytes"]}));
     run.sample(json!({"bytes": "8d40621d58c382d690c8ac2863a7", "ops": ["from_bytes", "to_string", "Debug", "Airplanes::action fresh + paired, 7 receivers"]}));
     run.sample(json!({"pair": "Altitude{odd, 131071, 0} / Altitude{even, u32::MAX, u32::MAX}", "ops": ["get_position"]}));
